@@ -522,7 +522,11 @@ def deser_chain_cases(rng, tier, n_classes):
     cases = []
     opts_list = [{"keepUndefined": ku, "ignoreInvalidAddl": ii} for ku in (True, False, None) for ii in (True, False)]
     for ci in range(n_classes):
-        dg = gen.DeclGen(rng, max_depth=rng.choice([1, 2, 3]), allow=serde.SER_KINDS)
+        if ci % 3 == 2:
+            # the extension string kinds through the Deserializer as well
+            dg = gen.DeclGen(rng, max_depth=rng.choice([1, 2, 3]), allow=serde.SER_KINDS + ["xstring"], ext=True)
+        else:
+            dg = gen.DeclGen(rng, max_depth=rng.choice([1, 2, 3]), allow=serde.SER_KINDS)
         vg = gen.ValGen(rng)
         cls = dg.class_decl(0, n_fields=rng.choice([1, 2, 3]))
         cls["name"] = f"Z{ci}"
